@@ -506,9 +506,23 @@ def eval_graph(nodes, edges, root, names_by_level, sp):
     return sp.neg(t) if root < 0 else t
 
 
+def parse_roots(ans):
+    """The `R=` section of a DOT export answer: list of (root ref, target node, complemented)."""
+    body = ans[3:]
+    out = []
+    for part in body.split(';'):
+        if part.startswith('R='):
+            for item in part[2:].split(','):
+                if item:
+                    r, rest = item.split('>')
+                    t, c = rest.split(':')
+                    out.append((int(r), int(t), c == '1'))
+    return out
+
+
 def parse_graph(ans):
     body = ans[3:]
-    ns, es = body.split(';')
+    ns, es = body.split(';')[:2]
     nodes = []
     for item in ns[2:].split(','):
         if item:
@@ -564,8 +578,10 @@ def check_C18(ctx):
             ctx.case(('views', t, order))
         # sets of roots
         keys = list(refs)
-        for _ in range(200):
+        for it in range(200):
             roots = [rng.choice([1, -1]) * refs[rng.choice(keys)] for _ in range(rng.randint(1, 4))]
+            if it % 4 == 0:
+                roots.append(-roots[0])          # a function together with its negation
             reach = reachable(b, roots)
             for op in ('to_nx', 'to_dot', 'descendants'):
                 ans = s.op(0, op, ','.join(map(str, roots)))
@@ -577,6 +593,23 @@ def check_C18(ctx):
                 if not ok:
                     ctx.violation(f'{op} on a set of roots: wrong node set', dict(
                         roots=roots, got=ans, tags=dict(call=op)))
+                elif op == 'to_dot':
+                    # every root has its reference mark, and evaluating from it gives the root's function
+                    nodes, edges = parse_graph(ans)
+                    marks = parse_roots(ans)
+                    tt_b = TT(b, ABC)
+                    for r in set(roots):
+                        mk = sorted(set(m_ for m_ in marks if m_[0] == r))
+                        if len(mk) != 1:
+                            ctx.violation('DOT export: missing or duplicated reference mark of a root', dict(
+                                roots=roots, root=r, got=ans, tags=dict(call='to_dot-roots')))
+                            break
+                        _, tgt, comp = mk[0]
+                        val = eval_graph(nodes, edges, -tgt if comp else tgt, nbl, sp)
+                        if val != tt_b.of(r):
+                            ctx.violation('DOT export: evaluating from a root mark gives another function', dict(
+                                roots=roots, root=r, got=ans, tags=dict(call='to_dot-roots')))
+                            break
         ans = s.op(0, 'len')
         if ans != f'ok {len(b._succ)}':
             ctx.violation('len(bdd) wrong', dict(got=ans, tags=dict(call='len')))
@@ -587,6 +620,34 @@ def check_C18(ctx):
         s.close()
         if ctx.time_left() < 10:
             break
+    # inspect, drop, collect, rebuild (node numbers re-used), inspect again
+    from lib import reachable as _reach
+    for k in range(40 if ctx.tier == 'quick' else 400):
+        if ctx.time_left() < 8:
+            break
+        names = [chr(ord('a') + i) for i in range(rng.randint(2, 4))]
+        h = History(ctx, names)
+        for _ in range(rng.randint(15, 60)):
+            r = rng.random()
+            if r < 0.45 and len(h.pool) > 2:
+                roots = [h.pick() for _ in range(rng.randint(1, 2))]
+                reach = _reach(h.b, roots)
+                op = rng.choice(['descendants', 'to_nx', 'to_dot'])
+                ans = h.s.op(0, op, ','.join(map(str, roots)))
+                ctx.evaluations += 1
+                if op == 'descendants':
+                    ok = ans == 'ok ' + ','.join(map(str, sorted(reach)))
+                else:
+                    ok = ans.startswith('ok') and {u for u, _ in parse_graph(ans)[0]} == reach
+                if not ok:
+                    ctx.violation(f'{op} wrong after a history', dict(
+                        roots=roots, got=ans[:300], lines=list(h.s.lines), tags=dict(call=op + '-history')))
+                    break
+            else:
+                h.step(dict(var=3, apply=6, ite=1, hold=2, release=3, gc=4, swap=0.5))
+                h.prune()
+        ctx.case(('views-history', k, len(h.s.lines)))
+        h.finish(SECTIONS_L2, 'C18 history')
     # the Function interface of dd.autoref: low/high/var/negated, len, dag_size, DOT root marks
     for order in orders_for(ctx, ABC, quick_n=2):
         bdd = _auto.BDD()
@@ -623,6 +684,18 @@ def check_C18(ctx):
                             tt=want, tags=dict(call='succ')))
         if len(bdd) != len(bdd._bdd._succ):
             ctx.violation('len(bdd) wrong (autoref)', dict(tags=dict(call='len')))
+        # len(u) after a collection that let node numbers be re-used
+        for _ in range(30):
+            f1 = vs[rng.choice(ABC)] & (vs[rng.choice(ABC)] | ~vs[rng.choice(ABC)])
+            n1 = len(f1)
+            del f1
+            bdd.collect_garbage()
+            f2 = (vs[rng.choice(ABC)] | vs[rng.choice(ABC)]) & vs[rng.choice(ABC)]
+            from lib import reachable as _r2
+            if len(f2) != len(_r2(bdd._bdd, [f2.node])) or f2.dag_size != len(f2):
+                ctx.violation('len(u) wrong after a collection re-used node numbers', dict(
+                    tags=dict(call='Function.len-history')))
+            del f2
         ctx.case(('function-interface', order))
         del vs, f, g, c
         try:
